@@ -61,3 +61,23 @@ pub fn variant_name(debug: &str) -> String {
         .unwrap_or("")
         .to_string()
 }
+
+/// Truncate on a char boundary (String::truncate panics inside a multi-byte character).
+pub fn trunc(s: &mut String, max: usize) {
+    if s.len() > max {
+        let mut cut = max;
+        while !s.is_char_boundary(cut) {
+            cut -= 1;
+        }
+        s.truncate(cut);
+    }
+}
+
+/// Parse one job line without serde_json's default nesting limit (terms nested a few
+/// thousand levels deep are legitimate workloads; drivers run on a large stack).
+pub fn parse_job(line: &str) -> Result<serde_json::Value, String> {
+    use serde::Deserialize;
+    let mut de = serde_json::Deserializer::from_str(line);
+    de.disable_recursion_limit();
+    serde_json::Value::deserialize(&mut de).map_err(|e| e.to_string())
+}
